@@ -138,6 +138,7 @@ func c02FactsOf(markers []string) c02Facts {
 type c02Case struct {
 	Scenario string `json:"scenario"`
 	Crash    int    `json:"crash_before_op"`
+	Markers  int    `json:"events_before_crash"`
 	Torn     int    `json:"torn_bytes"`
 	Unsynced bool   `json:"unsynced"`
 	Recovery int    `json:"recovery_mode"`
@@ -283,7 +284,7 @@ func c02Judge(sc c02Scenario, facts c02Facts, rec c02Run, dir string) (string, s
 }
 
 func c02Describe(ops []vos.Op, c c02Case) string {
-	s := fmt.Sprintf("crash before file operation #%d (%s)", c.Crash, vos.Describe(ops, c.Crash))
+	s := fmt.Sprintf("crash after %d logged events, before file operation #%d (%s)", c.Markers, c.Crash, vos.Describe(ops, c.Crash))
 	if c.Torn > 0 {
 		s += fmt.Sprintf(", first %d bytes of that write on disk", c.Torn)
 	}
@@ -340,13 +341,40 @@ func TestVerifC02(t *testing.T) {
 		}
 		r.Bound(sc.Name+".file_ops", n)
 		prevSig := ""
-		for i := 0; i <= n; i++ {
+		// A crash can hit between any two logged events: positions range over the
+		// whole log (file operations and markers such as "report committed"), the
+		// spool state is given by the operations before the position, the known
+		// facts by the markers before it.
+		type cpos struct {
+			i       int // file operations completed
+			markers []string
+			nextOp  bool // the next log entry is a file operation (torn-write variants apply)
+		}
+		var positions []cpos
+		{
+			opsDone := 0
+			var ms []string
+			for p := 0; p <= len(orig.ops); p++ {
+				next := p < len(orig.ops) && orig.ops[p].Kind != "marker"
+				positions = append(positions, cpos{opsDone, append([]string{}, ms...), next})
+				if p < len(orig.ops) {
+					if orig.ops[p].Kind == "marker" {
+						ms = append(ms, orig.ops[p].Note)
+					} else {
+						opsDone++
+					}
+				}
+			}
+		}
+		r.Bound(sc.Name+".crash_positions", len(positions))
+		for _, cp := range positions {
+			i := cp.i
 			type variant struct {
 				torn     int
 				unsynced bool
 			}
 			vs := []variant{{0, false}, {0, true}}
-			if wl := vos.WriteLen(orig.ops, i); wl > 1 {
+			if wl := vos.WriteLen(orig.ops, i); wl > 1 && cp.nextOp {
 				seenK := map[int]bool{}
 				for _, k := range []int{1, wl / 2, wl - 1} {
 					if k > 0 && !seenK[k] {
@@ -358,9 +386,9 @@ func TestVerifC02(t *testing.T) {
 			for _, v := range vs {
 				for mode := 0; mode < 2; mode++ {
 					idx++
-					c := c02Case{Scenario: sc.Name, Crash: i, Torn: v.torn, Unsynced: v.unsynced, Recovery: mode, Crash2: -1}
+					c := c02Case{Scenario: sc.Name, Crash: i, Markers: len(cp.markers), Torn: v.torn, Unsynced: v.unsynced, Recovery: mode, Crash2: -1}
 					if replay != nil {
-						if replay.Crash != c.Crash || replay.Torn != c.Torn || replay.Unsynced != c.Unsynced || replay.Recovery != c.Recovery {
+						if replay.Crash != c.Crash || replay.Markers != c.Markers || replay.Torn != c.Torn || replay.Unsynced != c.Unsynced || replay.Recovery != c.Recovery {
 							continue
 						}
 					} else if !r.Mine(idx) {
@@ -373,7 +401,7 @@ func TestVerifC02(t *testing.T) {
 						r.HarnessError("materialise: " + err.Error())
 						return
 					}
-					facts := c02FactsOf(vos.MarkersBefore(orig.ops, i))
+					facts := c02FactsOf(cp.markers)
 					wantDepth2 := (depth2[sc.Name] || len(sc.Msgs) == 1 || vx.Thorough()) && v.torn == 0
 					rec := c02Recover(di, sc, mode, orig.endAt+time.Hour, wantDepth2)
 					r.Eval()
@@ -422,7 +450,7 @@ func TestVerifC02(t *testing.T) {
 							r.HarnessError("materialise2: " + err.Error())
 							return
 						}
-						f2 := c02FactsOf(append(append([]string{}, vos.MarkersBefore(orig.ops, i)...), vos.MarkersBefore(rec.ops, j)...))
+						f2 := c02FactsOf(append(append([]string{}, cp.markers...), vos.MarkersBefore(rec.ops, j)...))
 						rec2 := c02Recover(dj, sc, 0, rec.endAt+2*time.Hour, false)
 						r.Eval()
 						depth2Recoveries++
